@@ -25,14 +25,18 @@ from hpstatic.poly import Canon
 from hpstatic.terms import sym, intern, show, subterms, num
 from .common import THEORY
 
-MUTATION_TARGETS = {'holopy/scattering/theory/tmatrix.py': ['_parse_args', '_run_tmat', 'can_handle']}
+MUTATION_TARGETS = {'holopy/scattering/theory/tmatrix.py': ['_parse_args', '_run_tmat', 'can_handle', 'raw_fields', 'raw_scat_matrs']}
 
 LEVEL = 'other'
 META = dict(
     claimed=True,
     technique='Fortran call-graph reachability of process-terminating '
               'statements from the f2py entry points + symbolic conformance of '
-              'the Python argument hand-off to the documented solver arguments',
+              'the Python argument hand-off to the documented solver arguments'
+              '; per-unit scan of the f2py entry routines for assigned persistent loc'
+              'als and for the dominance of the solve call over the per-angle calls; '
+              'symbolic 2 x 2 matrix algebra (modulo cos^2 + sin^2 = 1) of the sphere'
+              ' limit through _run_tmat / raw_scat_matrs / raw_fields',
     level_text='Exhaustive over the program units reachable from the f2py entry '
                'points (tmatrix_f: ampld; mie_f: every routine the wrappers '
                'call): every STOP / EXIT reachable from Python is enumerated and '
